@@ -74,6 +74,8 @@ pub fn main(run_once: RunOnce) -> i32 {
                     oracle::Tier::Thorough => 2000,
                 }),
                 directed: verif.join("directed"),
+                real_bin: arg_val(&args, "--real-bin").map(PathBuf::from),
+                fidelity_cases: arg_val(&args, "--fidelity-cases").and_then(|s| s.parse().ok()).unwrap_or(150),
                 minimise_budget: Duration::from_secs(match tier {
                     oracle::Tier::Quick => 30,
                     oracle::Tier::Thorough => 120,
